@@ -175,56 +175,57 @@ type retInfo struct {
 }
 
 type loopInfo struct {
-	header   *ssa.BasicBlock
-	body     map[*ssa.BasicBlock]bool
-	ord      int
-	spec     *LoopSpec
-	entrySt  *State
-	phiNames map[string]ssa.Value
-	counter  string // term for #N (range loops): completed iterations
-	parent   *loopInfo
-	decPrev  []string // decreases measure at header
-	visited  string
-	prevVals map[string]Val // during a back-edge check: the loop-carried variables' values at the loop head
+	header       *ssa.BasicBlock
+	body         map[*ssa.BasicBlock]bool
+	ord          int
+	spec         *LoopSpec
+	entrySt      *State
+	phiNames     map[string]ssa.Value
+	counter      string // term for #N: completed iterations (range loops and canonical counted loops)
+	rangeIdxName string // source name of a range loop's index variable (resolves to #N at the loop head)
+	parent       *loopInfo
+	decPrev      []string // decreases measure at header
+	visited      string
+	prevVals     map[string]Val // during a back-edge check: the loop-carried variables' values at the loop head
 }
 
 type frame struct {
-	c        *Ctx
-	fn       *ssa.Function
-	contract *FuncContract
-	vals     map[ssa.Value]Val
-	reach    map[*ssa.BasicBlock]string
-	outSt    map[*ssa.BasicBlock]*State
-	outReach map[*ssa.BasicBlock]string
-	edge     map[[2]int]string
-	loops    map[*ssa.BasicBlock]*loopInfo
-	loopList []*loopInfo
-	returns  []retInfo
-	deferred []deferInfo
+	c           *Ctx
+	fn          *ssa.Function
+	contract    *FuncContract
+	vals        map[ssa.Value]Val
+	reach       map[*ssa.BasicBlock]string
+	outSt       map[*ssa.BasicBlock]*State
+	outReach    map[*ssa.BasicBlock]string
+	edge        map[[2]int]string
+	loops       map[*ssa.BasicBlock]*loopInfo
+	loopList    []*loopInfo
+	returns     []retInfo
+	deferred    []deferInfo
 	recoverTerm string
 	inRecovery  bool
-	lastNext map[ssa.Value]string
-	safeDone map[string][]*ssa.BasicBlock
-	frameDone map[string]bool
-	assertAt map[ssa.Instruction][]*AssertSpec
-	curInstr int
-	curCall  *ssa.CallCommon
-	depth    int
-	top      bool
-	entry    *State
-	reach0   string
-	name     string // obligation name prefix
-	props    []string
-	sites    map[string]int
-	params   map[string]Val
-	debug    map[string][]*ssa.DebugRef
-	panicOK  string // licensed-panic condition (over entry state), "false" if none
-	cur      *ssa.BasicBlock
-	curReach string
-	curSt    *State
-	modObjs  []modItem
-	retExit  map[*ssa.BasicBlock][]*loopInfo // return blocks entered straight from a `complete ... unless` loop
-	noSafety bool
+	lastNext    map[ssa.Value]string
+	safeDone    map[string][]*ssa.BasicBlock
+	frameDone   map[string]bool
+	assertAt    map[ssa.Instruction][]*AssertSpec
+	curInstr    int
+	curCall     *ssa.CallCommon
+	depth       int
+	top         bool
+	entry       *State
+	reach0      string
+	name        string // obligation name prefix
+	props       []string
+	sites       map[string]int
+	params      map[string]Val
+	debug       map[string][]*ssa.DebugRef
+	panicOK     string // licensed-panic condition (over entry state), "false" if none
+	cur         *ssa.BasicBlock
+	curReach    string
+	curSt       *State
+	modObjs     []modItem
+	retExit     map[*ssa.BasicBlock][]*loopInfo // return blocks entered straight from a `complete ... unless` loop
+	noSafety    bool
 	unsupported []string
 }
 
@@ -1068,12 +1069,96 @@ func (fr *frame) assumeCounterBound(li *loopInfo, phi *ssa.Phi, init Val, cur Va
 
 func (fr *frame) setCounter(li *loopInfo, phis []*ssa.Phi) {
 	li.counter = ""
+	li.rangeIdxName = ""
 	for _, phi := range phis {
 		li.phiNames[phi.Comment] = phi
 		if phi.Comment == "rangeindex" {
 			li.counter = "(+ " + fr.vals[phi].T + " 1)"
+			li.rangeIdxName = fr.rangeIndexVarName(phi)
 		}
 	}
+	if li.counter != "" {
+		return
+	}
+	// A counted loop `for i := 0; ...; i++` (one integer phi starting at an integer constant and
+	// stepping by the constant 1 on every back edge) has the same number of completed iterations
+	// as the range loop a maintainer may turn it into, and vice versa: `#N` denotes it in both forms.
+	var cand *ssa.Phi
+	var candInit int64
+	for _, phi := range phis {
+		if bt, ok := phi.Type().Underlying().(*types.Basic); !ok || bt.Info()&types.IsInteger == 0 {
+			continue
+		}
+		ok := true
+		seenBack := false
+		var init int64
+		for i, p := range li.header.Preds {
+			if isBackEdge(p, li.header) {
+				bo, isBin := phi.Edges[i].(*ssa.BinOp)
+				k, _ := func() (*ssa.Const, bool) {
+					if !isBin {
+						return nil, false
+					}
+					c, ok := bo.Y.(*ssa.Const)
+					return c, ok
+				}()
+				if !isBin || bo.Op != token.ADD || bo.X != ssa.Value(phi) || k == nil || k.Value == nil {
+					ok = false
+					break
+				}
+				if v, exact := constant.Int64Val(constant.ToInt(k.Value)); !exact || v != 1 {
+					ok = false
+					break
+				}
+				seenBack = true
+			} else {
+				k, isConst := phi.Edges[i].(*ssa.Const)
+				if !isConst || k.Value == nil {
+					ok = false
+					break
+				}
+				v, exact := constant.Int64Val(constant.ToInt(k.Value))
+				if !exact {
+					ok = false
+					break
+				}
+				init = v
+			}
+		}
+		if ok && seenBack {
+			if cand != nil {
+				return // two candidates: ambiguous, no counter
+			}
+			cand = phi
+			candInit = init
+		}
+	}
+	if cand != nil && candInit == 0 {
+		// Only loops that start at 0: a loop that starts at 1 has usually had its first iteration
+		// peeled off (`acc = xs[0]; for i := 1; ...`), and then "completed iterations" is no longer
+		// "elements processed", which is what invariants written with #N mean. Giving #N a value
+		// there turned an undecided case into a false alarm (computeBoundingBox, see DESIGN §9).
+		li.counter = fr.vals[cand].T
+	}
+}
+
+// rangeIndexVarName: the source name of the index variable of a range loop (`for i, x := range xs`),
+// found as the debug reference to rangeindex+1 in the loop; "" when the loop has none (`for _, x :=`).
+func (fr *frame) rangeIndexVarName(phi *ssa.Phi) string {
+	for _, r := range *phi.Referrers() {
+		bo, ok := r.(*ssa.BinOp)
+		if !ok || bo.Op != token.ADD || bo.X != ssa.Value(phi) {
+			continue
+		}
+		for name, refs := range fr.debug {
+			for _, d := range refs {
+				if d.X == ssa.Value(bo) && !d.IsAddr {
+					return name
+				}
+			}
+		}
+	}
+	return ""
 }
 
 func (fr *frame) checkInvariants(li *loopInfo, st *State, kind string) {
